@@ -22,6 +22,8 @@ Reading guide.  `rawParts`, `rawPath`, `rawName`, `rawSuffix`, `rawSuffixes` are
 `q e Gen.PATH_QUOTER s` is the canonical (quoted) form of a path argument; 46 = '.', 47 = '/'.
 `recompose` joins parts with '/', the first part "/" standing for the leading slash.
 `(rawParts v).dropLast` are the "parent parts".
+Continued further in C13HeadlineMore4.lean (headline theorems for the proof modules added after the last refresh:
+C13More3.lean, C13More3b.lean; the GAPS block below cites them).
 -/
 namespace Yarl
 open Yarl.PathLemmas Yarl.PathAlg
@@ -240,12 +242,38 @@ GAPS:
     "parent parts equal to u's parts without a trailing empty segment" is FALSE for an old path with dot segments
     (under an authority: `encoded=True` only) and a '.' in `s`: `URL("http://h/a/../b", encoded=True) / "c.txt"` has
     parts ("/", "b", "c.txt") — C13_headline_child_parent_parts_fails_for_dotted_old_path.
-    STILL OPEN: the same for an argument WITH '/' whose segments include "." / "..", for several arguments, and for
-    `encoded=True` arguments (there the guard "no dot segment in the old path and in the arguments" of
-    C13_headline_child_slash / C13_headline_joinpath_parts remains; C15 says what the normalised path is, no C13
-    statement about name/parent then); the any-old-path statement is on the RAW accessors only (no decoded
-    restatement, no statement about the URL operation `parent` of the result in the normalising case: item 4 keeps
-    its guards); "no rootless path next to an authority" in the non-normalising case; a single argument
+    FURTHER PARTLY CLOSED by C13_joinpath_norm_closed, C13_joinpath_norm_name_parent, C13_child_norm_closed,
+    C13_child_norm_name_parent, C13_child_norm_closed_nodots, C13_child_name_any_old_path_decoded,
+    C13_joinpath_norm_parent, C13_joinpath_norm_parent_trailing, C13_child_norm_parent,
+    C13_child_parent_parts_iff_rooted, C13_child_parent_parts_fails_for_rootless (C13More3.lean), see
+    C13_headline_joinpath_norm_closed, C13_headline_joinpath_norm_name_parent, C13_headline_child_norm_name_parent,
+    C13_headline_child_name_any_old_path_decoded, C13_headline_joinpath_norm_parent,
+    C13_headline_joinpath_norm_parent_trailing, C13_headline_child_norm_parent,
+    C13_headline_child_parent_parts_iff_rooted, C13_headline_child_parent_parts_fails_for_rootless
+    (C13HeadlineMore4.lean).  Proved, for the NORMALISING case (hypotheses: an authority, and a '.' in some argument
+    text — `argDots`), ANY number of arguments (n ≥ 1), either `encoded` mode, arguments with '/' and with "." / ".."
+    segments, NO hypothesis on the old path: the raw parts of the result are "/" followed by `normalize_path_segments`
+    of (root's empty segment, old segments without a trailing empty one, argument segments) without a leading empty
+    segment; the raw name is the last element of that list; by the LAST argument segment `l`: for `l` not "", ".", ".."
+    the name is `l` and the parent parts are "/" + the final stack of the segments BEFORE `l`, for `l` one of "", ".",
+    ".." the name is "" and the parts end with ONE empty segment.  For ONE Python string `s` (`encoded=False`) with last
+    '/'-segment `t` (non-empty, no lone surrogate, not "." / ".."): raw name quote(t), DECODED name `t`.  The
+    any-old-path theorem for one plain segment is restated on the DECODED accessors (all hypotheses on `s` itself).
+    The URL operation `parent` of the result in the normalising case: path "/" + the final stack of the segments
+    before the name (ordinary last segment); for a last segment "", ".", ".." the result is its own parent when it
+    is the bare authority or the root, else `parent` drops the trailing empty segment.
+    "No rootless path next to an authority"
+    in the non-normalising case is shown NECESSARY: for one plain segment without '.' under an authority the parent
+    parts are "u's parts without a trailing empty segment" IF AND ONLY IF the old path is empty or rooted (witness:
+    `URL.build(scheme="http", host="h", path="a", encoded=True) / "c"` has parts ("/", "a", "c"), old parts ("/", "")).
+    So outside the guards the clause "parent parts equal to u's parts without a trailing empty segment" is replaced by
+    an exact closed form, it is not true.
+    STILL OPEN: the closed forms are in terms of the model functions `normalizePathSegments` / `normLoop`
+    (what they compute is C15's subject), not of the property's words; the n-ary / '/'-argument closed form is on
+    the RAW accessors (decoded only: the name for one `encoded=False` string, and the one-plain-segment theorem);
+    under an authority with an old path WITH dot segments and arguments WITHOUT any '.' (nothing normalised) only the
+    ONE-plain-segment statement exists (C13_headline_child_parent_parts_iff_rooted), C13_headline_joinpath_parts keeps
+    its guard "no dot segment in the old path" for several arguments or an argument with '/'; a single argument
     "." / ".." is excluded by the property text itself.
  3. CLOSED by C13_with_suffix_suffix, C13_with_suffix_suffix_general, C13_with_suffix_decoded (C13More.lean), see
     C13_headline_with_suffix_suffix, C13_headline_with_suffix_suffix_general, C13_headline_with_suffix_decoded
@@ -254,6 +282,22 @@ GAPS:
     the LAST dotted piece of quote(x) ("" if quote(x) ends with '.'; the suffix of the old stem if x = ""); the
     decoded-level "rest of the decoded name" statement is the one quoted in item 1.  "suffix of the result is x" is
     FALSE for x with two dots (".tar.gz" gives ".gz"): C13_headline_with_suffix_suffix_fails_for_multi_dot.
+    EXTENDED by C13_with_suffix_own_suffix, C13_with_suffix_suffix_id, C13_with_suffix_empty_id,
+    C13_with_suffix_stem_iff, C13_with_suffix_idem_iff, C13_with_suffix_absorb_iff, C13_with_suffix_then_with_suffix,
+    C13_stemKeeping_iff, C13_dottedPiece_quote (C13More3b.lean), see C13_headline_with_suffix_own_suffix,
+    C13_headline_with_suffix_empty_id, C13_headline_with_suffix_stem_iff, C13_headline_with_suffix_idem_iff,
+    C13_headline_with_suffix_absorb_iff, C13_headline_with_suffix_then_with_suffix, C13_headline_stemKeeping_iff
+    (C13HeadlineMore4.lean).  Proved, on the RAW name, for a Python-string argument `x` and a successful call:
+    "replaces only the suffix" read as "the stem (name minus suffix) of the result is the old stem" holds IF AND ONLY IF
+    `x` keeps the stem (`C13_stemKeeping`: x == "" and the old stem has no suffix of its own, or quote(x) is '.' + a
+    non-empty text without '.'); the same condition is exactly idempotence (`v.with_suffix(x)` is `v` up to the keep
+    flags) and exactly absorption (`v.with_suffix(y)` is `u.with_suffix(y)` for every y, errors included).
+    `with_suffix(x)` with quote(x) = the non-empty raw suffix, and `with_suffix("")` on a name without suffix (not "",
+    ".", ".."), give the URL back (hypotheses: `x` without lone surrogates; no rootless path next to an authority —
+    needed: C13_headline_with_suffix_own_suffix_fails_for_rootless).  FALSE, as theorems: idempotence / absorption /
+    stem kept for ".tar.gz" and for "" on "a.tar.gz" (C13_headline_with_suffix_idem_fails_for_multi_dot), for
+    ".\ud800" (C13_headline_with_suffix_idem_fails_for_surrogate); `with_suffix(u.suffix) == u` for a suffix with an
+    escaped '/' (`URL("http://h/a.b%2Fc")`: ValueError — C13_headline_with_suffix_suffix_fails_for_escaped_slash).
  4. CLOSED by C13_with_name_parent, C13_child_parent, C13_child_parent_root, C13_child_slash_parent
     (C13More.lean), see C13_headline_with_name_parent (+ C13_headline_with_name_parent_root_instances),
     C13_headline_child_parent, C13_headline_child_parent_root, C13_headline_child_slash_parent
@@ -266,6 +310,15 @@ GAPS:
     (C13_headline_child_slash_parent_fails_for_surrogate: empty URL reference and `a` a lone surrogate).
     The guards of item 2 (no dot segments under an authority, no rootless path next to an authority) apply to the
     `/` statements.
+    FURTHER by C13_child_norm_parent, C13_joinpath_norm_parent, C13_joinpath_norm_parent_trailing (C13More3.lean),
+    see C13_headline_child_norm_parent, C13_headline_joinpath_norm_parent, C13_headline_joinpath_norm_parent_trailing
+    (C13HeadlineMore4.lean): the guard "no dot segments in the old path" is EXACT for `(u / s).parent` when
+    `_make_child` normalises (authority, one plain segment `s` with a '.', old path empty or rooted): the parent is
+    "`u` without query, fragment and ONE trailing slash" IF AND ONLY IF the old segments have no dot segment; in
+    general its path is "/" + the final stack of `normalize_path_segments` on the old segments
+    (`URL("http://h/a/../b?k=v#f", encoded=True) / "x/../c d.txt"` has parent `http://h/b`: computed `example`s in
+    C13More3.lean and C13HeadlineMore4.lean).
+    STILL OPEN: `(u / "a/b").parent == u / "a"` (C13_headline_child_slash_parent) keeps its no-dot-segment guard.
  5. PARTLY CLOSED by C13_joinpath_nary, C13_truediv_double_slash_counterexample (C13More.lean), see
     C13_headline_joinpath_nary, C13_headline_truediv_slash_fails_for_double_slash (C13HeadlineMore.lean).
     Proved: joinpath(a₁, …, aₙ) = joinpath(a₁).joinpath(a₂)…joinpath(aₙ) as values (errors included) for n ≥ 1 in
@@ -301,10 +354,35 @@ GAPS:
         guard "no climb" (`DotMore.climbs 0` on the first step's segment list), implied by and strictly weaker than
         "no '..' segment".  The clause as the property states it (no guard) stays FALSE:
         C13_headline_joinpath_assoc_fails_for, C13_headline_joinpath_assoc_fails_for_root_lost.
-    STILL OPEN: the iff is a condition on (u, a) for ALL `b`; for a FIXED pair (a, b) outside `hroot` no exact
-    condition (some `b` still agree).  For n ≥ 3 arguments only the sufficient guard of C13_headline_joinpath_nary
-    ("no '..' in the old path or in any argument but the last"), no exact one.  (a) and (b) are not stated for
-    `encoded=True` (there only C13_headline_joinpath_nary applies).
+    FURTHER PARTLY CLOSED by C13_joinpath_assoc_fixed_iff, C13_joinpath_assoc_pair_iff,
+    C13_joinpath_assoc_second_without_dot, C13_joinpath_assoc_fixed_instances,
+    C13_joinpath_assoc_fixed_eq_only_instance, C13_joinpath_two_eq_truediv_encoded, C13_joinpath_assoc_noclimb_gen,
+    C13_joinpath_assoc_noclimb_encoded, C13_joinpath_nary_noclimb, C13_nary_noclimb_of_no_dotdot,
+    C13_noclimb_prefixes, C13_joinpath_nary_fails_when_climbing (C13More3.lean), see
+    C13_headline_joinpath_assoc_pair_iff, C13_headline_joinpath_assoc_second_without_dot,
+    C13_headline_joinpath_assoc_fixed_instances, C13_headline_joinpath_assoc_differs_only_as_stored,
+    C13_headline_joinpath_two_eq_truediv_encoded, C13_headline_joinpath_assoc_noclimb_either_mode,
+    C13_headline_joinpath_nary_noclimb, C13_headline_joinpath_nary_fails_when_climbing (C13HeadlineMore4.lean).  Proved:
+    (c) the EXACT condition for a FIXED pair (a, b), `encoded=False`: under an authority, with a '.' in quote(a), the
+        first step succeeding, `b` and quote(b) not starting with '/' (the latter true for every `b` without lone
+        surrogates), `u.joinpath(a, b)` and `(u / a) / b` are the same STORED value IF AND ONLY IF `hroot` holds, or
+        quote(b) has no '.', or `b` climbs above what the first step left, or the normalised list of (what the first
+        step left ++ segments of quote(b)) does not begin with an empty segment.  Corollary without any condition on
+        (u, a): a `b` whose quoted text has no '.' always composes.  "No '..' segment in `b`" is not sufficient
+        (b = ".//x" on `URL("http://h")`, a = "..": instance theorem).
+    (d) `encoded=True`: joinpath(a, b, encoded=True) = joinpath(pjoin(a, b), encoded=True) as values (only hypothesis:
+        `b` does not start with '/'); "no climb" is sufficient for joinpath(a, b) = joinpath(a).joinpath(b) in either
+        mode.
+    (e) n ≥ 1 arguments, either mode: joinpath(a₁, …, aₙ) = joinpath(a₁)….joinpath(aₙ) as values under the guard "under
+        an authority the segment list of the call WITHOUT its last argument does not climb", implied by the guard of
+        C13_headline_joinpath_nary; needed for n = 3 (`URL("http://h").joinpath("..", ".//x", "y")` is `http://h/x/y`,
+        the iterated form `http://h//x/y`).
+    All these equivalences compare STORED values: `URL("http://h").joinpath("..", ".")` is `http://h`,
+    `(URL("http://h") / "..") / "."` is `http://h/` — different as stored, equal as Python `==`
+    (C13_headline_joinpath_assoc_differs_only_as_stored); no version of (b)/(c) up to `==` is proved.
+    STILL OPEN: for n ≥ 3 arguments the guard of (e) is sufficient only, no exact condition.  With `encoded=True` only
+    the sufficient "no climb" guard: the exactness statements (the iff in `hroot`, the fixed-pair condition (c)) are
+    `encoded=False` only.
  6. "u / s equals u.joinpath(s)" is true by construction of the model (same function); the Python-level
     fact that `__truediv__` and `joinpath` share `_make_child` is an assumption of the model wiring
     (Main.lean), checked by the differential harness only.
@@ -327,5 +405,29 @@ GAPS:
     `raw_suffix` is "" provided the name does not start with ".."; the same on the decoded accessors.  For a name
     starting with ".." it is FALSE (`URL("http://h/..a")`: suffix ".a", suffixes ()):
     C13_headline_suffix_last_of_suffixes_fails_for_dotdot_name.
+    EXTENDED by C13_name_eq_stem_suffix, C13_rawStem_closed, C13_name_closed_form, C13_suffixes_tail_closed,
+    C13_suffixes_tail_fails_for_trailing_dot, C13_sfx_last_iff, C13_suffix_last_iff (C13More3b.lean), see
+    C13_headline_name_eq_stem_suffix, C13_headline_suffixes_tail_closed,
+    C13_headline_suffixes_tail_fails_for_trailing_dot, C13_headline_suffix_last_iff (C13HeadlineMore4.lean).  Proved
+    for every URL, with the exact side conditions: `raw_name = stem + raw_suffix` always; for a raw name NOT ending
+    in '.' the name is its head (leading dots + first dot-free piece) followed by the concatenation of `raw_suffixes`,
+    for a name ending in '.' `raw_suffixes` is () (so "suffixes are the tail of name" in the sense "the tail after
+    the head" is FALSE for "a.b.": C13_headline_suffixes_tail_fails_for_trailing_dot); `raw_suffix` is the last of
+    `raw_suffixes` ("" if none) IF AND ONLY IF the name is not "two or more dots + a non-empty dot-free piece" — the
+    "..a" corner above is the only failing family; outside it the same on the decoded accessors.
+ 8. NEW (with C13More3b.lean).  The suffix / `with_suffix` algebra of items 3 and 7 is stated with hand-written
+    definitions whose reading is trusted: `C13_rawStem n` (`n` minus `sfx n`; proved equal to `stem` of
+    Lemmas/HumanReach.lean and to "split at the last '.'" by C13_rawStem_closed), `C13_dottedPiece`, `C13_stemKeeping`,
+    `C13_keep u kq kf` (same scheme / authority / path, query and fragment by the keep flags, NO constructor cache —
+    "gives the URL back" means equal to `C13_keep u …`, which is `u` itself only for a `u` without cache and with both
+    flags on).  `sfx` / `sfxs` are tied to the accessors by `rawSuffix_eq` / `rawSuffixes_eq` (C13More.lean).  All of
+    it is on the RAW (stored) name: no decoded-level idempotence / absorption statement (the decoded reading of a
+    single `with_suffix` is item 1); `NoSurrogate` is needed where stated
+    (C13_headline_with_suffix_idem_fails_for_surrogate).
+ 9. NEW (with C13More3.lean).  The closed forms of item 2 and the conditions of item 5 (c)–(e) are expressed with
+    `root`, `base`, `argSegs`, `argDots`, `C13_dropRootSeg`, `normLoop`, `DotMore.climbs` (Lemmas/PathAlg.lean,
+    C13More.lean, C13More2.lean, Lemmas/DotMore.lean, YarlModel/Path.lean): their reading (vocabulary sections of
+    C13HeadlineMore3.lean / C13HeadlineMore4.lean) is trusted; paths with dot segments or rootless paths next to an
+    authority are reachable only through `encoded=True` / hand-made parts, and the witnesses use `fromParts`.
 -/
 end Yarl
